@@ -44,7 +44,8 @@ type faultBucket struct {
 	reads    int
 	failRead func(idx int, kind, name string) bool // idx counts read calls from 0
 	// intercept (C33) may answer a read itself: "" = pass through, "failed" = transient error,
-	// "notfound" = the bucket's not-found error, "corrupt" / "badversion" = altered content (Get only)
+	// "notfound" = the bucket's not-found error, "corrupt" / "badversion" = altered content (Get only),
+	// "body0" / "bodyhalf" / "bodylast" = Get succeeds and the reader breaks after 0 / half / all-but-one bytes
 	intercept func(kind, name string) string
 	afterMut  func(rec callRec) // called outside the lock
 }
@@ -161,6 +162,24 @@ func (b *faultBucket) SupportedIterOptions() []objstore.IterOptionType {
 
 var versionRe = regexp.MustCompile(`"version":\s*1`)
 
+// brokenReader yields its data and then an I/O error (the connection broke while the body was read).
+type brokenReader struct {
+	data []byte
+	off  int
+}
+
+var errBody = errors.New("verif: connection reset while reading the object body")
+
+func (r *brokenReader) Read(p []byte) (int, error) {
+	if r.off >= len(r.data) {
+		return 0, errBody
+	}
+	n := copy(p, r.data[r.off:])
+	r.off += n
+	return n, nil
+}
+func (r *brokenReader) Close() error { return nil }
+
 func (b *faultBucket) mode(kind, name string) string {
 	b.mu.Lock()
 	h := b.intercept
@@ -175,7 +194,8 @@ func (b *faultBucket) Get(ctx context.Context, name string) (io.ReadCloser, erro
 	if err := b.gate("get", name, false); err != nil {
 		return nil, err
 	}
-	switch b.mode("get", name) {
+	m := b.mode("get", name)
+	switch m {
 	case "failed":
 		return nil, errInjected
 	case "notfound":
@@ -183,6 +203,21 @@ func (b *faultBucket) Get(ctx context.Context, name string) (io.ReadCloser, erro
 		return nil, err
 	case "corrupt":
 		return io.NopCloser(strings.NewReader("{ this is not json")), nil
+	case "body0", "bodyhalf", "bodylast":
+		var body []byte
+		if rc, err := b.inner.Get(ctx, name); err == nil {
+			body, _ = io.ReadAll(rc)
+			rc.Close()
+		}
+		k := 0
+		switch {
+		case len(body) == 0:
+		case m == "bodyhalf":
+			k = len(body) / 2
+		case m == "bodylast":
+			k = len(body) - 1
+		}
+		return &brokenReader{data: body[:k]}, nil
 	case "badversion":
 		rc, err := b.inner.Get(ctx, name)
 		if err != nil {
